@@ -95,39 +95,31 @@ Proof.
   assert (EN : be16 (slice (zn (hdr_len pkt)) 4 pkt) 2 * 4 = xtn_len pkt - 4).
   { rewrite be16_slice4. unfold xtn_len. replace (zn (hdr_len pkt + 2)) with (zn (hdr_len pkt) + 2)%nat by (unfold zn; lia). lia. }
   rewrite EN.
+  hif; [hexit|].
   eapply h_bind; [apply h_rd_dst; lia|intros d]. apply h_pure; intros (dd2 & _ & _ & ->).
   pose proof (lenZ_slice_le (hdr_len pkt + 4) (xtn_len pkt - 4) dd2 ltac:(lia)) as LD.
   set (d := slice (zn (hdr_len pkt + 4)) (zn (xtn_len pkt - 4)) dd2) in *.
   match goal with |- context [match ?r with Some _ => _ | None => _ end] => destruct r as [d'|] eqn:ER end; [|hexit].
   assert (LE : length d' = length d).
-  { destruct (_ =? xtn_hdr_one_byte_profile_c); [exact (xtn_one_length _ _ _ _ _ _ ER)|].
-    destruct (_ =? xtn_hdr_two_byte_profile_c); [exact (xtn_two_length _ _ _ _ _ _ ER)|discriminate]. }
+  { destruct (_ =? xtn_hdr_one_byte_profile_c); [exact (xtn_one_length _ _ _ _ _ _ ER)|exact (xtn_two_length _ _ _ _ _ _ ER)]. }
   apply h_wr_dst_any; [lia|]. unfold lenZ in *. lia.
 Qed.
 
-(* with a cryptex profile in the extension header the RFC 6904 step only reads: it
-   refuses the profile (parse_err) and writes nothing *)
+(* with a cryptex profile in the extension header the RFC 6904 step only reads the four
+   header octets: it refuses the profile (parse_err) before looking at the elements *)
 Definition cryptex_profile (pkt : bytes) : Prop :=
   be16 pkt (zn (hdr_len pkt)) = cryptex_one_byte_profile_c \/ be16 pkt (zn (hdr_len pkt)) = cryptex_two_byte_profile_c.
 Lemma h_process_xtn_cx (K : bytes -> Prop) st pkt xcs :
   (forall dd, lenZ dd = lenZ d0 -> K dd -> slice (zn (hdr_len pkt)) 4 dd = slice (zn (hdr_len pkt)) 4 pkt) ->
-  hdr_len pkt + xtn_len pkt <= lenZ d0 -> cryptex_profile pkt ->
+  hdr_len pkt + 4 <= lenZ d0 -> cryptex_profile pkt ->
   hoare (I K) (process_xtn st pkt xcs) (fun _ => I Kany) NoOob.
 Proof.
   intros HK HB HP. pose proof (hdr_cc_range pkt) as CC. pose proof (hdr_len_eq pkt) as HLn.
-  pose proof (xtn_len_ge pkt) as XL.
   unfold process_xtn.
   eapply h_bind; [apply h_rd_dst; lia|intros h]. apply h_pure; intros (dd & Kdd & Ldd & ->).
-  change (zn 4) with 4%nat. rewrite (HK dd Ldd Kdd).
-  assert (EN : be16 (slice (zn (hdr_len pkt)) 4 pkt) 2 * 4 = xtn_len pkt - 4).
-  { rewrite be16_slice4. unfold xtn_len. replace (zn (hdr_len pkt + 2)) with (zn (hdr_len pkt) + 2)%nat by (unfold zn; lia). lia. }
-  rewrite EN. rewrite be16_slice4_0.
-  eapply h_bind; [apply h_rd_dst; lia|intros d]. apply h_pure; intros _.
-  destruct (be16 pkt (zn (hdr_len pkt)) =? xtn_hdr_one_byte_profile_c) eqn:E1.
-  { exfalso. destruct HP as [P|P]; rewrite P in E1; vm_compute in E1; discriminate. }
-  destruct (Z.land (be16 pkt (zn (hdr_len pkt))) 65520 =? xtn_hdr_two_byte_profile_c) eqn:E2.
-  { exfalso. destruct HP as [P|P]; rewrite P in E2; vm_compute in E2; discriminate. }
-  hexit.
+  change (zn 4) with 4%nat. rewrite (HK dd Ldd Kdd). rewrite be16_slice4_0.
+  match goal with |- hoare _ (if ?c then _ else _) _ _ => destruct c eqn:E end; [hexit|].
+  exfalso. destruct HP as [P|P]; rewrite P in E; vm_compute in E; discriminate.
 Qed.
 
 Lemma h_cryptex_adjust (K : bytes -> Prop) pkt :
@@ -306,12 +298,6 @@ Proof.
 Qed.
 
 (* ---- srtp_unprotect ---- *)
-(* what is asked of cryptex streams: in place *out_len covers the input; out of place with an
-   RFC 6904 cipher the destination block is as long as the input *)
-Hypothesis SPx : forall st, SP st -> s_cryptex st = true ->
-  (al = true -> L <= C) /\
-  (al = false -> Exists (fun k => k_xtn_c k <> None) (s_keys st) -> L <= lenZ d0).
-
 Definition upre_ok (u : upre) : Prop :=
   u_pkt u = take (zn L) (if al then d0 else src) /\
   (hdr_x (u_pkt u) = 1 -> hdr_len (u_pkt u) + xtn_len (u_pkt u) <= L) /\
@@ -319,9 +305,9 @@ Definition upre_ok (u : upre) : Prop :=
   u_enc_start u + u_enc_len u <= L /\ u_enc_start u + u_enc_len u <= C /\
   u_inplace u = u_inuse u && al /\
   (u_inuse u = true -> hdr_x (u_pkt u) = 1 /\ hdr_len (u_pkt u) + 4 <= C) /\
-  (hdr_x (u_pkt u) = 1 -> k_xtn_c (u_k u) <> None ->
+  (hdr_x (u_pkt u) = 1 ->
    hdr_len (u_pkt u) + xtn_len (u_pkt u) <= C \/
-   (hdr_len (u_pkt u) + xtn_len (u_pkt u) <= lenZ d0 /\ cryptex_profile (u_pkt u))).
+   (hdr_len (u_pkt u) + 4 <= lenZ d0 /\ cryptex_profile (u_pkt u))).
 
 Lemma u64_neg x : - 9223372036854775808 <= x < 0 -> u64 x = x + 18446744073709551616.
 Proof. intros H. unfold u64. symmetry. apply Z.mod_unique with (q := -1); lia. Qed.
@@ -380,25 +366,31 @@ Proof.
     replace (zn (hdr_len pkt + 2)) with (zn (hdr_len pkt) + 2)%nat by (unfold zn; lia).
     subst pkt. rewrite be16_take by (unfold zn in *; lia). reflexivity. }
   intros xl. apply h_pure; intros XLE.
-  match goal with |- context [u64 (L - ak_tag (k_rtp_a k) - s_mki_size st) <? ?e] => remember e as es eqn:Hes end.
-  assert (ES : 0 <= es /\ (al = false -> hdr_x pkt = 1 -> hdr_len pkt + 4 <= es) /\
+  match goal with |- context [u64 (L - ak_tag (k_rtp_a k) - s_mki_size st) <? u64 (?e + ?f)] =>
+    remember e as es eqn:Hes; remember f as sh eqn:Hsh end.
+  assert (ES : 0 <= es /\ 0 <= sh /\ es + sh <= L /\
+               (al = false -> hdr_x pkt = 1 -> hdr_len pkt + 4 <= es) /\
                (inuse = false -> hdr_x pkt = 1 -> es = hdr_len pkt + xtn_len pkt) /\
-               (inuse = true -> al = false -> es = hdr_len pkt + 4)).
-  { subst es. destruct inuse.
+               (inuse = true -> es + sh = hdr_len pkt + 4)).
+  { subst es sh. destruct inuse.
     - destruct (IU eq_refl) as (_ & X & _). rewrite (XLE eq_refl), X. cbn [Z.eqb Pos.eqb andb].
-      split; [apply u64_range|].
-      assert (E : al = false -> u64 (u64 (hdr_len pkt + xtn_len pkt - (xtn_len pkt - 4)) - (if al then hdr_cc pkt * 4 else 0)) = hdr_len pkt + 4).
-      { intros ->. rewrite (u64_small (hdr_len pkt + xtn_len pkt - (xtn_len pkt - 4))) by lia. rewrite u64_small by lia. lia. }
-      split; [intros A _; rewrite (E A); lia|]. split; [discriminate|]. intros _ A. exact (E A).
-    - split; [destruct (hdr_x pkt =? 1); lia|]. split; [intros _ X; rewrite X; cbn [Z.eqb Pos.eqb]; lia|].
+      specialize (X4 X).
+      assert (E : u64 (u64 (hdr_len pkt + xtn_len pkt - (xtn_len pkt - 4)) - (if al then hdr_cc pkt * 4 else 0)) =
+                  hdr_len pkt + 4 - (if al then hdr_cc pkt * 4 else 0)).
+      { rewrite (u64_small (hdr_len pkt + xtn_len pkt - (xtn_len pkt - 4))) by lia.
+        rewrite u64_small by (destruct al; lia). lia. }
+      rewrite E. clear E. destruct al; repeat split; try lia; try discriminate; intros; lia.
+    - cbn [andb]. split; [destruct (hdr_x pkt =? 1); lia|]. split; [lia|].
+      split; [destruct (hdr_x pkt =? 1) eqn:EX; [apply Z.eqb_eq in EX; specialize (V3 EX); lia|lia]|].
+      split; [intros _ X; rewrite X; cbn [Z.eqb Pos.eqb]; lia|].
       split; [intros _ X; rewrite X; reflexivity|discriminate]. }
-  destruct ES as (ES1 & ES2 & ES3 & ES4).
-  destruct (u64 (L - ak_tag (k_rtp_a k) - s_mki_size st) <? es) eqn:E2; [hexit|]. apply h_bind_ret. apply Z.ltb_ge in E2.
+  destruct ES as (ES1 & ESh & ESL & ES2 & ES3 & ES4).
+  destruct (u64 (L - ak_tag (k_rtp_a k) - s_mki_size st) <? u64 (es + sh)) eqn:E2; [hexit|]. apply h_bind_ret. apply Z.ltb_ge in E2.
   destruct (C <? u64 (L - s_mki_size st - ak_tag (k_rtp_a k))) eqn:E3; [hexit|]. apply h_bind_ret. apply Z.ltb_ge in E3.
   assert (A0 : 0 <= L - s_mki_size st - ak_tag (k_rtp_a k)).
   { destruct (Z_lt_le_dec (L - s_mki_size st - ak_tag (k_rtp_a k)) 0) as [N|]; [|assumption].
     rewrite u64_neg in E3 by lia. lia. }
-  rewrite u64_small in E3 by lia. rewrite u64_small in E2 by lia.
+  rewrite u64_small in E3 by lia. rewrite (u64_small (es + sh)) in E2 by lia. rewrite u64_small in E2 by lia.
   rewrite (u64_small (L - ak_tag (k_rtp_a k) - s_mki_size st)) by lia.
   rewrite (u64_small (L - es - s_mki_size st - ak_tag (k_rtp_a k))) by lia.
   hseq (CI pkt). { apply (h_copy_header pkt es Hp); try assumption; lia. }
@@ -417,17 +409,9 @@ Proof.
   unfold upre_ok. cbn [u_pkt u_enc_start u_enc_len u_inuse u_inplace u_k].
   split; [exact Hp|]. split; [exact V3|]. split; [exact ES1|]. split; [lia|]. split; [lia|]. split; [lia|].
   split; [reflexivity|]. split.
-  - intros ->. destruct (IU eq_refl) as (CX & X & _). split; [exact X|].
-    destruct al eqn:EA.
-    + assert (L <= C) by (apply (SPx st Hst CX); reflexivity). specialize (X4 X). lia.
-    + rewrite (ES4 eq_refl eq_refl) in E2. lia.
-  - intros X NK. destruct inuse eqn:EI.
-    + destruct (IU eq_refl) as (CX & _ & PF). destruct al eqn:EA.
-      * left. assert (L <= C) by (apply (SPx st Hst CX); reflexivity). specialize (V3 X). lia.
-      * right. split; [|exact PF].
-        assert (L <= lenZ d0).
-        { apply (SPx st Hst CX); [reflexivity|]. apply Exists_exists. exists k. split; assumption. }
-        specialize (V3 X). lia.
+  - intros ->. destruct (IU eq_refl) as (CX & X & _). split; [exact X|]. specialize (ES4 eq_refl). lia.
+  - intros X. destruct inuse eqn:EI.
+    + destruct (IU eq_refl) as (_ & _ & PF). right. split; [|exact PF]. specialize (ES4 eq_refl). lia.
     + left. rewrite (ES3 eq_refl X) in E2. lia.
 Qed.
 
@@ -445,7 +429,7 @@ Proof.
   hseq Kany.
   { destruct (k_xtn_c (u_k u)) as [xk|] eqn:EK; [|hany].
     destruct (hdr_x pkt =? 1) eqn:EX; [|hany]. apply Z.eqb_eq in EX.
-    destruct (U9 EX ltac:(discriminate)) as [B|[B PF]].
+    destruct (U9 EX) as [B|[B PF]].
     - apply h_process_xtn; [|exact B]. intros dd _ HCI. exact (HCI EX).
     - apply h_process_xtn_cx; [|exact B|exact PF]. intros dd _ HCI. exact (HCI EX). }
   apply h_bind with (R := fun _ => I Kany).
@@ -491,92 +475,30 @@ Proof.
 Qed.
 Print Assumptions protect_no_oob.
 
-(* srtp_unprotect: *out_len only has to hold len - mki - tag octets.  For a stream with
-   cryptex enabled two things can reach beyond that:
-   - in place, the cryptex buffer shuffles and the profile restore work on the packet up to
-     the end of the extension header (12 + 4*cc + 4), which an authenticated packet can place
-     beyond len - mki - tag (refuted_inplace below; reproduced against the C library);
-   - out of place with header-extension encryption configured as well, the model's RFC 6904
-     step reads the whole extension block from the destination before it looks at the
-     profile (the C code only computes the end pointer and returns parse_err; this is an
-     over-approximation of the model, refuted_outofplace below).
-   The streams of the session are compatible with the buffers when: *)
-Definition has_xtn_key (st : stream) : Prop := Exists (fun k => k_xtn_c k <> None) (s_keys st).
-Definition cryptex_compat (w : world) : Prop :=
-  session_all (fun st => s_cryptex st = true ->
-                 (b_alias (w_b w) = true -> b_len (w_b w) <= b_cap (w_b w)) /\
-                 (b_alias (w_b w) = false -> has_xtn_key st -> b_len (w_b w) <= lenZ (b_dst (w_b w)))) (w_s w).
-
-Lemma session_all_and (P Q : stream -> Prop) s :
-  session_all P s -> session_all Q s -> session_all (fun st => P st /\ Q st) s.
-Proof.
-  intros [P1 P2] [Q1 Q2]. split; [intros t E; split; auto|].
-  rewrite Forall_forall in *. intros x Hx. split; auto.
-Qed.
-Lemma session_all_imp (P Q : stream -> Prop) s :
-  (forall st, P st -> Q st) -> session_all P s -> session_all Q s.
-Proof.
-  intros I [P1 P2]. split; [intros t E; auto|]. rewrite Forall_forall in *. auto.
-Qed.
-
+(* srtp_unprotect.  *out_len only has to hold len - mki - tag octets; the parse check
+   "un-shifted header end <= len - tag - mki" keeps the cryptex buffer shuffles and the
+   profile restore below that bound, and the RFC 6904 step refuses a cryptex profile
+   before it looks at the extension elements, so nothing else is asked of the session. *)
 Theorem unprotect_no_oob w :
   b_oob (w_b w) = false -> size_ok (b_len (w_b w)) -> size_ok (b_cap (w_b w)) ->
   b_cap (w_b w) <= lenZ (b_dst (w_b w)) ->
   (b_alias (w_b w) = true -> b_len (w_b w) <= lenZ (b_dst (w_b w))) ->
   (b_alias (w_b w) = false -> b_len (w_b w) <= lenZ (b_src (w_b w))) ->
-  session_wf (w_s w) -> cryptex_compat w ->
+  session_wf (w_s w) ->
   b_oob (w_b (fst (unprotect w))) = false.
 Proof.
-  intros HO HL HC HD HA HS HW HX.
-  set (SP := fun st => stream_wf st /\
-               (s_cryptex st = true ->
-                 (b_alias (w_b w) = true -> b_len (w_b w) <= b_cap (w_b w)) /\
-                 (b_alias (w_b w) = false -> has_xtn_key st -> b_len (w_b w) <= lenZ (b_dst (w_b w))))).
-  assert (SPc : cfg_closed SP).
-  { intros a b E [W X]. split; [exact (stream_wf_cfg a b E W)|].
-    destruct E as (K & _ & _ & Y). unfold has_xtn_key. rewrite K, Y. exact X. }
-  assert (SPwf : forall st, SP st -> stream_wf st) by (intros st [W _]; exact W).
-  assert (SPx : forall st, SP st -> s_cryptex st = true ->
-                (b_alias (w_b w) = true -> b_len (w_b w) <= b_cap (w_b w)) /\
-                (b_alias (w_b w) = false -> Exists (fun k => k_xtn_c k <> None) (s_keys st) ->
-                 b_len (w_b w) <= lenZ (b_dst (w_b w)))) by (intros st [_ X]; exact X).
-  eapply hoare_noob; [apply (unprotect_safe SP SPc SPwf _ _ _ _ _ HL HC HD HA HS SPx)| |apply inv_init; [|exact HO]].
-  - intros a w' H. exact (inv_noob _ _ _ _ _ _ _ _ H).
-  - apply session_all_and; assumption.
+  intros HO HL HC HD HA HS HW.
+  eapply hoare_noob; [apply (unprotect_safe stream_wf stream_wf_cfg (fun st h => h) _ _ _ _ _ HL HC HD HA HS)| |apply inv_init; assumption].
+  intros a w' H. exact (inv_noob _ _ _ _ _ _ _ _ H).
 Qed.
 Print Assumptions unprotect_no_oob.
 
-(* two sufficient conditions *)
-Corollary unprotect_no_oob_no_cryptex w :
-  b_oob (w_b w) = false -> size_ok (b_len (w_b w)) -> size_ok (b_cap (w_b w)) ->
-  b_cap (w_b w) <= lenZ (b_dst (w_b w)) ->
-  (b_alias (w_b w) = true -> b_len (w_b w) <= lenZ (b_dst (w_b w))) ->
-  (b_alias (w_b w) = false -> b_len (w_b w) <= lenZ (b_src (w_b w))) ->
-  session_wf (w_s w) -> session_all (fun st => s_cryptex st = false) (w_s w) ->
-  b_oob (w_b (fst (unprotect w))) = false.
-Proof.
-  intros HO HL HC HD HA HS HW HN. apply unprotect_no_oob; try assumption.
-  unfold cryptex_compat. eapply session_all_imp; [|exact HN]. intros st E E'. congruence.
-Qed.
-Corollary unprotect_no_oob_full_cap w :
-  b_oob (w_b w) = false -> size_ok (b_len (w_b w)) -> size_ok (b_cap (w_b w)) ->
-  b_cap (w_b w) <= lenZ (b_dst (w_b w)) ->
-  (b_alias (w_b w) = false -> b_len (w_b w) <= lenZ (b_src (w_b w))) ->
-  session_wf (w_s w) -> b_len (w_b w) <= b_cap (w_b w) ->
-  b_oob (w_b (fst (unprotect w))) = false.
-Proof.
-  intros HO HL HC HD HS HW HN. apply unprotect_no_oob; try assumption; [lia|].
-  unfold cryptex_compat. eapply session_all_imp; [|exact HW]. intros st _ _. split; intros; lia.
-Qed.
-
-Print Assumptions unprotect_no_oob_no_cryptex.
-Print Assumptions unprotect_no_oob_full_cap.
-
 (* ===================================================================== *)
-(* Without cryptex_compat the statement is FALSE for the model.  Two concrete worlds, both
-   with a session built by session_create from one template policy (AES-ICM-128,
-   HMAC-SHA1 tag 10, cryptex enabled, rtp services = confidentiality only so that no tag
-   has to be forged). *)
+(* The two worlds that refuted the statement for the earlier model / library (before the
+   parse check covered the un-shifted header and before process_xtn checked the profile
+   first) are now refused with parse_err and touch nothing out of bounds.  Sessions built
+   by session_create from one template policy (AES-ICM-128, HMAC-SHA1 tag 10, cryptex
+   enabled, rtp services = confidentiality only so that no tag has to be forged). *)
 Module Witness.
 Definition cp (serv : Z) : cpolicy :=
   {| cp_cipher := 1; cp_keylen := 30; cp_auth := 3; cp_authkeylen := 20; cp_taglen := 10; cp_serv := serv |}.
@@ -623,31 +545,29 @@ Definition bufs_ok (w : world) : Prop :=
   (b_alias (w_b w) = true -> b_len (w_b w) <= lenZ (b_dst (w_b w))) /\
   (b_alias (w_b w) = false -> b_len (w_b w) <= lenZ (b_src (w_b w))).
 
-(* in place: srtp_unprotect returns ok with *rtp_len = 16 and has written at offsets 16..23
-   (buffer shuffle, profile restore at 20..21) although *out_len was 16 *)
-Theorem unprotect_no_oob_refuted_inplace :
-  exists w, bufs_ok w /\ session_wf (w_s w) /\ b_alias (w_b w) = true /\
-            snd (unprotect w) = inl 16 /\ b_oob (w_b (fst (unprotect w))) = true /\
-            b_dst (w_b (fst (unprotect w))) <> b_dst (w_b w) /\
-            take 16 (b_dst (w_b (fst (unprotect w)))) = take 16 (b_dst (w_b w)).
+(* in place: the packet whose extension header overlaps the trailer is refused, nothing is
+   flagged and the buffer is left as it was *)
+Example unprotect_w1_refused :
+  bufs_ok Witness.wit1 /\ session_wf (w_s Witness.wit1) /\
+  snd (unprotect Witness.wit1) = inr st_parse_err /\
+  b_oob (w_b (fst (unprotect Witness.wit1))) = false /\
+  b_dst (w_b (fst (unprotect Witness.wit1))) = b_dst (w_b Witness.wit1).
 Proof.
-  exists Witness.wit1. split.
+  split.
   { unfold bufs_ok, size_ok. cbn. repeat split; try lia; try discriminate; intros; lia. }
-  split; [exact Witness.sess1_wf|]. split; [reflexivity|].
-  split; [vm_compute; reflexivity|]. split; [vm_compute; reflexivity|].
-  split; [vm_compute; discriminate|vm_compute; reflexivity].
+  split; [exact Witness.sess1_wf|]. repeat split; vm_compute; reflexivity.
 Qed.
-Print Assumptions unprotect_no_oob_refuted_inplace.
 
-(* out of place: the model's RFC 6904 step reads the extension block [16,28) from a
-   20-octet destination before looking at the profile; the call then exits with parse_err *)
-Theorem unprotect_no_oob_refuted_outofplace :
-  exists w, bufs_ok w /\ session_wf (w_s w) /\ b_alias (w_b w) = false /\
-            snd (unprotect w) = inr st_parse_err /\ b_oob (w_b (fst (unprotect w))) = true.
+(* out of place: the RFC 6904 step refuses the cryptex profile before reading [16,28) from the
+   20-octet destination *)
+Example unprotect_w2_refused :
+  bufs_ok Witness.wit2 /\ session_wf (w_s Witness.wit2) /\
+  snd (unprotect Witness.wit2) = inr st_parse_err /\
+  b_oob (w_b (fst (unprotect Witness.wit2))) = false.
 Proof.
-  exists Witness.wit2. split.
+  split.
   { unfold bufs_ok, size_ok. cbn. repeat split; try lia; try discriminate; intros; lia. }
-  split; [exact Witness.sess2_wf|]. split; [reflexivity|].
-  split; vm_compute; reflexivity.
+  split; [exact Witness.sess2_wf|]. repeat split; vm_compute; reflexivity.
 Qed.
-Print Assumptions unprotect_no_oob_refuted_outofplace.
+Print Assumptions unprotect_w1_refused.
+Print Assumptions unprotect_w2_refused.
